@@ -149,3 +149,88 @@ def native_locality(seed, tier):
         obs.append(Ob(f"native row-locality {name}: whole array == single rows == subset == reordered, training predictions == labels_, with extreme rows mixed in",
                       PROVED if not why else REFUTED, "native", "B", {"failed": sorted(set(why)), "replayed": True}, fn=f"{name}.predict_proba"))
     return obs
+
+
+def native_locality_large(seed, tier):
+    """B, size ladder of C18 / C09 / C15 / C19: predictions of LARGE batches (more than 1024 / 2048 rows, not a multiple of any
+    power of two; Douglas with thousands of leaves so that rows x leaves exceeds 2^20; Kauri trees that are deep and unbalanced)
+    must be, row by row, the predictions of the same rows taken alone or in small blocks -- block-wise or level-wise
+    implementations of predict have no small counterexample."""
+    import warnings
+    from gemclus.linear import LinearMMD, KernelRIM
+    from gemclus.mlp import MLPMMD
+    from gemclus.sparse import SparseMLPMMD
+    from gemclus.nonparametric import CategoricalMMD
+    from gemclus.tree import Douglas, Kauri
+    obs = []
+    rs = np.random.RandomState(seed + 17)
+    Xtr = rs.normal(size=(60, 3)) + 3.0 * rs.randint(0, 3, size=(60, 1))
+    big = np.vstack([Xtr, rs.normal(size=(2540, 3)) * 2.0 + 1.0])         # 2600 rows
+    x = np.cumsum(2.0 ** np.arange(12))[:, None]
+    comb = np.vstack([x, x + 0.1, x + 0.2])                                # Kauri grows a comb of depth 8 on it
+    comb_q = np.vstack([comb, comb + 0.05, rs.uniform(0, 5000, size=(1100, 1))])
+    X6 = rs.normal(size=(40, 6))
+    big6 = rs.normal(size=(700, 6)) * 1.5
+    cases = [
+        ("LinearMMD, 2600 rows", lambda: LinearMMD(n_clusters=3, max_iter=3, random_state=seed), Xtr, big),
+        ("KernelRIM(rbf), 2600 rows", lambda: KernelRIM(n_clusters=3, max_iter=3, random_state=seed, base_kernel="rbf"), Xtr, big),
+        ("MLPMMD, 2600 rows", lambda: MLPMMD(n_clusters=3, max_iter=3, random_state=seed, n_hidden_dim=6), Xtr, big),
+        ("SparseMLPMMD, 2600 rows", lambda: SparseMLPMMD(n_clusters=3, max_iter=3, random_state=seed, n_hidden_dim=6), Xtr, big),
+        ("Douglas(n_cuts=2), 2600 rows", lambda: Douglas(n_clusters=3, max_iter=3, random_state=seed, gemini="mmd_ova", n_cuts=2), Xtr, big),
+        ("Douglas(6 features, n_cuts=3: 4096 leaves), 700 rows", lambda: Douglas(n_clusters=3, max_iter=1, random_state=seed, gemini="mi", n_cuts=3), X6, big6),
+        ("Kauri, 2600 rows", lambda: Kauri(max_clusters=4, random_state=seed), Xtr, big),
+        ("Kauri(comb data: deep unbalanced tree), 1136 rows", lambda: Kauri(max_clusters=12, kernel="linear", random_state=seed), comb, comb_q),
+        ("Kauri(24 leaves), 2600 rows", lambda: Kauri(max_clusters=24, max_leaves=24, random_state=seed), Xtr, big),
+    ]
+    for name, f, Xfit, A in cases:
+        why = []
+        det = {}
+        try:
+            with warnings.catch_warnings(), np.errstate(all="ignore"):
+                warnings.simplefilter("ignore")
+                m = f().fit(Xfit)
+                if not np.array_equal(m.predict(Xfit), m.labels_):
+                    why.append("predict(X_train) != labels_")
+                if isinstance(m, Kauri):
+                    det["tree depth"] = int(m.tree_.get_depth())
+                whole = m.predict(A)
+                idx = sorted(set([0, 1, len(A) - 1, len(A) - 2, 1023, 1024, 1025, 2047, 2048, 2049, 255, 256, 257, 511, 512, 513]
+                                 + [int(i) for i in rs.randint(0, len(A), size=60)]))
+                idx = [i for i in idx if i < len(A)]
+                single = np.array([m.predict(A[i:i + 1])[0] for i in idx])
+                if whole.shape != (len(A),) or not np.array_equal(whole[idx], single):
+                    bad = [i for i, a, b in zip(idx, whole[idx] if whole.shape == (len(A),) else [], single) if a != b]
+                    why.append("predict of a large batch differs from the prediction of its rows taken alone")
+                    det["first differing rows"] = bad[:5]
+                blocks = np.concatenate([m.predict(A[j:j + 97]) for j in range(0, len(A), 97)])
+                if not np.array_equal(blocks, whole):
+                    why.append("predict of a large batch differs from predictions by blocks of 97 rows")
+                if hasattr(m, "predict_proba"):
+                    Pw = m.predict_proba(A)
+                    Ps = np.vstack([m.predict_proba(A[i:i + 1]) for i in idx])
+                    if Pw.shape[0] != len(A) or not (np.all(np.isfinite(Pw)) and np.allclose(Pw[idx], Ps, rtol=1e-9, atol=1e-12)
+                                                      and np.allclose(Pw.sum(1), 1.0, atol=1e-9)):
+                        why.append("predict_proba of a large batch: rows are not the probability vectors of the rows taken alone")
+                s_all = m.score(A) if not isinstance(m, KernelRIM) else None
+                if s_all is not None and not np.isfinite(s_all):
+                    why.append("score of a large batch is not finite")
+        except Exception as e:
+            why.append("raised " + repr(e)[:160])
+        obs.append(Ob(f"size ladder: row-locality on large batches, {name}: whole batch == rows taken alone == blocks of 97 rows; training predictions == labels_",
+                      PROVED if not why else REFUTED, "native", "B", dict(det, failed=sorted(set(why)), replayed=True), fn="predict / predict_proba"))
+    # Categorical models (transductive): one row of probabilities per training sample, whatever the number of samples
+    for n in (300, 1100):
+        why = []
+        try:
+            with warnings.catch_warnings():
+                warnings.simplefilter("ignore")
+                Xc = rs.normal(size=(n, 2))
+                m = CategoricalMMD(n_clusters=3, max_iter=2, random_state=seed).fit(Xc)
+                P = m.predict_proba(Xc)
+                if m.labels_.shape != (n,) or P.shape != (n, 3) or not np.array_equal(m.predict(Xc), m.labels_):
+                    why.append(f"labels_ {m.labels_.shape}, predict_proba {P.shape} for {n} samples")
+        except Exception as e:
+            why.append("raised " + repr(e)[:160])
+        obs.append(Ob(f"size ladder: CategoricalMMD on {n} samples: one label and one probability row per sample, predict == labels_",
+                      PROVED if not why else REFUTED, "native", "B", {"failed": why, "replayed": True}, fn="CategoricalModel.fit"))
+    return obs
